@@ -186,6 +186,8 @@ RISCV_TEXTS = [
     "addi x1, x0, 5\nadd x2, x1, x1",
     ".data\nv: .word 1, 2, 3\nb: .byte 7\n.text\nla x1, v\nlw x2, v[1]\nsw x2, v[2], x3\nli x4, 0x12345\necall",
     "loop: addi x1, x1, 1\nbeq x1, x2, loop\njal x0, loop",
+    ".data\ns: .string \"hi\"\nh: .half 1, 2\nz: .zero 2\nb: .byte 9\n.text\nlb x1, s\nsh x1, h[1], x2",
+    ".data\nt: .string \"x\"\n.text\nbeq x0, x0, nowhere",  # data written, then label error
     "addi x1, x0,",  # syntax error
     "beq x0, x0, nowhere",  # unknown label
     "a: nop\na: nop",  # duplicate label
